@@ -873,6 +873,14 @@ def wait_shapes():
     A(P("cv-handover", SJ(2) + JJ(2), CS("m", L("cvwait", "cv", o2="m"), rd("c")), [wr("c")] + CS("m", L("notify1", "cv"))))
     A(P("cv-handover-in-cs", SJ(2) + JJ(2), CS("m", L("cvwait", "cv", o2="m"), rd("c")), CS("m", wr("c"), L("notify1", "cv"))))
     A(P("notify-handover", [spawn(2), wr("c"), L("notify", "nt"), join(2)], [L("nwait", "nt"), rd("c")]))
+    # a notification that arrives while the future waiter is still on its way into wait() (it holds the mutex, it is
+    # not waiting yet) wakes nobody and must not consume anything: the later, real notification still finds the waiter
+    A(P("cv-early-notify-then-real-notify", SJ(2) + JJ(2), [L("lock", "m"), ld("s"), br(1, 0, 1), L("cvwait", "cv", o2="m"), L("unlock", "m")],
+        [L("notify1", "cv")] + CS("m", st("s", 1)) + [L("notify1", "cv")]))
+    A(P("cv-early-notifyall-then-real-notify", SJ(2) + JJ(2), [L("lock", "m"), ld("s"), br(1, 0, 1), L("cvwait", "cv", o2="m"), L("unlock", "m")],
+        [L("notifyall", "cv")] + CS("m", st("s", 1)) + [L("notify1", "cv")]))
+    A(P("cv-two-items", SJ(2) + JJ(2), [L("lock", "m"), ld("s"), br(1, 0, 1), L("cvwait", "cv", o2="m"), ld("s"), br(2, 1, 1), L("cvwait", "cv", o2="m"), L("unlock", "m")],
+        CS("m", st("s", 1)) + [L("notify1", "cv")] + CS("m", st("s", 2)) + [L("notify1", "cv")]))
     # at most ONE spurious return per Notify, also after a real wake-up in between: the third return is the second notification
     A(P("notify-spurious-once-three-waits", [spawn(2), L("nwait", "nt"), ld("s"), br(1, 0, 5), L("nwait", "nt"), ld("s"), st("a", 1, "rel"),
                                              L("nwait", "nt"), ld("s"), st("a", 1, "rel"), join(2)],
@@ -1028,6 +1036,13 @@ def leak_shapes():
     # leaks that depend on a uniqueness check racing with the drop of the other handle
     A(P("leak-if-unwrap-wins", [L("tnew", "k"), spawn(2), L("aunwrap", "a1"), br(1, 0, 2), L("tdrop", "k"), D("a1"), join(2)], [D("a2")], arcs=a2))
     A(P("leak-if-getmut-wins", [L("tnew", "k"), spawn(2), L("agetmut", "a1"), br(1, 0, 1), L("tdrop", "k"), D("a1"), join(2)], [D("a2")], arcs=a2))
+    # the leak depends on a strong_count that races with a drop / clone of a thread that has just touched the Arc itself
+    A(P("leak-if-count-read-after-remote-count-and-drop", [L("tnew", "k"), spawn(2), L("acount", "a1"), br(1, 2, 1), L("tdrop", "k"), D("a1"), join(2)],
+        [L("acount", "a2"), D("a2")], arcs=a2))
+    A(P("leak-if-count-read-before-remote-clone", [L("tnew", "k"), spawn(2), L("aclone", "a1", o2="a1b"), join(2), D("a1b"), D("a1")],
+        [L("aclone", "a2", o2="a2b"), L("acount", "a2"), br(1, 4, 1), L("tdrop", "k"), D("a2b"), D("a2")], arcs=a2))
+    A(P("leak-arc-if-count-is-1-after-remote-count", [spawn(2), L("acount", "a1"), br(1, 1, 1), L("aclone", "a1", o2="a1b"), D("a1"), join(2)],
+        [L("acount", "a2"), D("a2")], arcs=a2))
     A(P("leak-if-count-is-1", [L("tnew", "k"), spawn(2), L("acount", "a1"), br(1, 2, 1), L("tdrop", "k"), D("a1"), join(2)], [D("a2")], arcs=a2))
     return out
 
